@@ -357,3 +357,53 @@ func (s *sut) ambientOracle(f []string, _ string, fail func(clause, class, detai
 		return
 	}
 }
+
+// ---------------------------------------------------------------- direct calls (hooked functions, arbitrary arguments)
+
+func (v *ambientView) at(tok string) *securityclient.PeerAuthentication {
+	if tok == "-" {
+		return nil
+	}
+	i, err := strconv.Atoi(tok)
+	if err != nil || i < 0 || i >= len(v.crs) {
+		return nil
+	}
+	return v.crs[i]
+}
+
+func (v *ambientView) list(toks []string) []*securityclient.PeerAuthentication {
+	var out []*securityclient.PeerAuthentication
+	for _, t := range toks {
+		if cr := v.at(t); cr != nil {
+			out = append(out, cr)
+		}
+	}
+	return out
+}
+
+func (s *sut) directConvert(i, j, k string) string {
+	v := s.ambientView()
+	cfg := v.at(i)
+	if cfg == nil {
+		return "bad-op"
+	}
+	return showAuthz(ambient.VerifConvertPeerAuthentication(s.root, cfg, v.at(j), v.at(k)))
+}
+
+func (s *sut) directKeys(idx []string) string {
+	v := s.ambientView()
+	return wire.EncSet(ambient.VerifConvertedSelectorPeerAuthentications(s.root, v.list(idx)))
+}
+
+func (s *sut) directOldest(idx []string) string {
+	v := s.ambientView()
+	l := v.list(idx)
+	if len(l) == 0 {
+		return "nil" // the callers never pass an empty list (switch on len in policies.go)
+	}
+	o := ambient.VerifGetOldestPeerAuthn(l)
+	if o == nil {
+		return "nil"
+	}
+	return o.Namespace + "/" + o.Name
+}
